@@ -283,6 +283,17 @@ ReqsC13 == <<
   MkReq("https", "ab.ba", "/x", "image", "ab.ba"),
   MkReq("https", "x.com", "/ab", "script", "x.com")
 >>
+\* universe c13x: redirect EXCEPTIONS that are not hostname anchored, carry no domain and share one option mask and
+\* one bucket (what the optimiser may fuse): each must cancel exactly the resource it names.  Every list = the
+\* three base rules (two directives of different priority + a blocking rule) followed by <= K exceptions.
+BaseC13x == << [W("/ab") EXCEPT !.mkind = "redirect-rule", !.mval = "r1"],
+               [W("/ab") EXCEPT !.mkind = "redirect-rule", !.mval = "r2", !.prio = "1"], W("/ab") >>
+XR(p, kind, res) == [W(p) EXCEPT !.exc = TRUE, !.mkind = kind, !.mval = res]
+PoolC13x == << XR("-x", "redirect-rule", "r1"), XR("-y", "redirect-rule", "r2"), XR("-x", "redirect-rule", "r2"), XR("-y", "redirect-rule", "r1"),
+               XR("-x", "redirect", "r1"), XR("-y", "redirect", "r2"), XR("-z", "redirect-rule", "r1"), XR("-z", "redirect-rule", "r2") >>
+ReqsC13x == << MkReq("https", "ab.ba", "/ab-x", "script", "x.com"), MkReq("https", "ab.ba", "/ab-y", "script", "x.com"),
+               MkReq("https", "ab.ba", "/ab-x-y", "script", "x.com"), MkReq("https", "ab.ba", "/ab", "script", "x.com"),
+               MkReq("https", "ab.ba", "/ab-z-x", "image", "ab.ba") >>
 \* resources in the order they are added; the last two collide with earlier names/aliases and
 \* must be rejected (their content differs, so serving them would be visible)
 ResSeqC13 == <<
@@ -340,11 +351,11 @@ ReqsC15 == SetToSeqD(
       src \in {"ab.ba", "x.com", "ba.com", ""} })
 
 --------------------------------------------------------------------------
-Pool == CASE U = "c01" -> PoolC01 [] U = "c01d" -> PoolC01d [] U = "c07" -> PoolC07 [] U = "c04b" -> PoolC04b [] U = "c05" -> PoolC05 [] U = "c08" -> PoolC08 [] U = "c13" -> PoolC13 [] U = "c14" -> PoolC14
+Pool == CASE U = "c01" -> PoolC01 [] U = "c01d" -> PoolC01d [] U = "c07" -> PoolC07 [] U = "c04b" -> PoolC04b [] U = "c05" -> PoolC05 [] U = "c08" -> PoolC08 [] U = "c13" -> PoolC13 [] U = "c13x" -> PoolC13x [] U = "c14" -> PoolC14
           [] U = "c15" -> PoolC15 [] OTHER -> <<>>
-Reqs == CASE U = "c03" -> ReqsC03 [] U = "c01" -> ReqsC01 [] U = "c01d" -> ReqsC01d [] U = "c07" -> ReqsC07 [] U = "c04b" -> ReqsC04b [] U = "c05" -> ReqsC05 [] U = "c08" -> ReqsC08 [] U = "c13" -> ReqsC13
+Reqs == CASE U = "c03" -> ReqsC03 [] U = "c01" -> ReqsC01 [] U = "c01d" -> ReqsC01d [] U = "c07" -> ReqsC07 [] U = "c04b" -> ReqsC04b [] U = "c05" -> ReqsC05 [] U = "c08" -> ReqsC08 [] U = "c13" -> ReqsC13 [] U = "c13x" -> ReqsC13x
           [] U = "c14" -> ReqsC14 [] U = "c15" -> ReqsC15
-Res == IF U \in {"c13", "c01", "c04b", "c05", "c08"} THEN ResC13 ELSE {}
+Res == IF U \in {"c13", "c13x", "c01", "c04b", "c05", "c08"} THEN ResC13 ELSE {}
 Tags == IF U \in {"c01", "c01d", "c07", "c15", "c04b", "c05", "c08"} THEN {"t1", "t2"} ELSE {}
 
 \* increasing index sequences of length <= K over 1..n
@@ -359,12 +370,13 @@ IncSeqs(lo, n, k) ==
 PartsC03 == SetToSeqD({ <<s, pa>> : s \in ShapesC03, pa \in {"any", "3p", "1p"} })
 NParts == IF U = "c03" THEN Len(PartsC03) ELSE Len(Pool) + 1
 
+Base == IF U = "c13x" THEN BaseC13x ELSE <<>>
 ListsOf(p) ==
   IF U = "c03"
   THEN { << [PartsC03[p][1] EXCEPT !.pos = PosOf(S), !.neg = NegOf(S), !.party = PartsC03[p][2],
                                    !.dom = d[1], !.ndom = d[2]] >> : S \in AtomSets, d \in DomVariants }
-  ELSE IF p = Len(Pool) + 1 THEN {<<>>}
-  ELSE {[j \in 1..Len(s) |-> Pool[s[j]]] : s \in {<<p>> \o t : t \in IncSeqs(p + 1, Len(Pool), K - 1)}}
+  ELSE IF p = Len(Pool) + 1 THEN {Base}
+  ELSE {Base \o [j \in 1..Len(s) |-> Pool[s[j]]] : s \in {<<p>> \o t : t \in IncSeqs(p + 1, Len(Pool), K - 1)}}
 
 TagsUsed(l) == {l[i].tag : i \in DOMAIN l} \ {""}
 
